@@ -149,6 +149,13 @@ def members {n : Nat} (ci : Vector Nat n) (m : Nat) : List (Fin n) := (List.finR
 /-- position of `u` in a list -/
 def posIn {n : Nat} (l : List (Fin n)) (u : Fin n) : Nat := l.idxOf u
 
+/-- gateway_coef_sign raises IndexError exactly when some module with more than one node has at most as many nodes as its
+0-based rank (`kj[i] /= 2` on an array of `size` rows) -/
+def gatewayIndexErr {n : Nat} (c : Vector Int n) : Bool :=
+  (List.range (numMods c)).any fun i =>
+    let sz := (members (relabel c) (i + 1)).length
+    sz > 1 && sz ≤ i
+
 def gcoef {n : Nat} (W : AMat Rat n) (c : Vector Int n) : Except Err (Vector Rat n) :=
   let ci := relabel c
   let k := numMods c
@@ -159,7 +166,7 @@ def gcoef {n : Nat} (W : AMat Rat n) (c : Vector Int n) : Except Err (Vector Rat
       let cen := sumIn (inMod ci (i + 1)) cent
       if cen > mx then cen else mx) 0
   -- `kj[i] /= 2` raises IndexError when a module with more than one node has at most `i` nodes
-  if (List.range k).any (fun i => let sz := (members ci (i + 1)).length; sz > 1 && sz ≤ i) then .error .index else
+  if gatewayIndexErr c then .error .index else
   let kjs : Fin n → Rat := fun u =>
     let i := ci[u] - 1
     let mem := members ci (i + 1)
@@ -257,6 +264,17 @@ def ls2ci (ls : List (List Nat)) (z : Nat) : Except Err (List Nat) :=
 def agreement {n : Nat} (cs : List (Vector Int n)) : AMat Nat n :=
   AMat.ofFn fun i j => if i = j then 0 else
     (cs.map fun c => modSum c fun p => if p i && p j then 1 else 0).sum
+
+/-- co-classification indicator of one partition: 1 if `i` and `j` share a module (`d · dᵀ` for the dummy variables `d`) -/
+def coClass {n : Nat} (c : Vector Int n) (i j : Fin n) : Rat := modSum c fun p => if p i && p j then 1 else 0
+
+/-- `agreement_weighted(ci, wts)`: `D = Σ_p (wts[p] / Σ wts) · d_p d_pᵀ` (the diagonal is *not* cleared); `none` if the weights sum to 0
+(NaN) or their number differs from the number of partitions.  Like `agreement` the real routine goes through `dummyvar` and raises
+TypeError on the installed NumPy (known finding D18), so this model is tied to the definition only. -/
+def agreementW {n : Nat} (cs : List (Vector Int n)) (wts : List Rat) : Option (AMat Rat n) :=
+  let tot := wts.sum
+  if tot = 0 ∨ wts.length ≠ cs.length then none else
+  some (AMat.ofFn fun i j => (List.zipWith (fun (g : Fin n → Fin n → Rat) w => w / tot * g i j) (cs.map coClass) wts).sum)
 
 /-! ## line protocol -/
 
@@ -374,6 +392,12 @@ def step (line : String) : String :=
       match ls2ci ls z with
       | .error e => some s!"error={e.str}"
       | .ok ci => some s!"ci={showNats ci}"
+    | "agreement_w" =>
+      let cs ← ((← lookup kv "cs").splitOn ";").mapM (parseVec n)
+      let ws ← parseRats (← lookup kv "wts")
+      match agreementW cs ws with
+      | none => some "D=nan"
+      | some D => some s!"D={showRats ((List.finRange n).flatMap fun i => (List.finRange n).map fun j => D.get i j)}"
     | "agreement" =>
       let cs ← ((← lookup kv "cs").splitOn ";").mapM (parseVec n)
       some s!"D={showNats ((List.finRange n).flatMap fun i => (List.finRange n).map fun j => (agreement cs).get i j)}"
